@@ -414,6 +414,34 @@ def rule_R5(res, prog):
                              "the encoder and the verifier disagree with the RFC about the number of leading zero bits" % (
                                  fn.relfile, ln, fn.name, pp(strip(node["r"]))), file=fn.relfile, line=ln)
             res.instance("C11.R5", "%s:%s 0xFF >> %s" % (fn.name, ln, pp(strip(node["r"]))[:50]), ok, finding=f_)
+    # RFC 8017 9.1.2 step 6: the leftmost bits of the *received* encoded message are tested - the decoder has a branch
+    # whose condition masks element 0 of its signature parameter with the complement of such a mask (a test made after
+    # the decoder itself cleared those bits can never fail)
+    dec = next((f for f in prog.functions.values() if f.name == "psPkcs1PssDecode"), None)
+    if dec is not None:
+        pids = set(p_.get("id") for p_ in dec.params)
+        found = False
+        for b in dec.blocks:
+            t = b.get("term")
+            if t is None or "c" not in t:
+                continue
+            for m in walk(t["c"]):
+                if m.get("k") == "bin" and m["op"] == "&":
+                    l_, r_ = strip(m["l"]), strip(m["r"])
+                    for a_, b_ in ((l_, r_), (r_, l_)):
+                        while a_ is not None and a_.get("k") == "cast":
+                            a_ = strip(a_["e"])
+                        if a_ is not None and a_.get("k") == "idx" and (strip(a_["b"]) or {}).get("id") in pids and \
+                                (strip(a_.get("i")) or {}).get("k") == "int" and strip(a_["i"])["v"] == 0 and b_ is not None and \
+                                any(q.get("k") == "un" and q["op"] == "~" for q in walk(b_)):
+                            found = True
+        f_ = None
+        if not found:
+            f_ = Finding(PROP, "C11.R5", dec.name, "top bits of the received encoded message are not tested",
+                         "%s:%s psPkcs1PssDecode(): no branch tests element 0 of the signature parameter against the complement of the "
+                         "top-bit mask (RFC 8017 9.1.2 step 6): an encoded message with a leading bit set - a second accepted signature "
+                         "for the same message - verifies" % (dec.relfile, dec.line), file=dec.relfile, line=dec.line)
+        res.instance("C11.R5", "psPkcs1PssDecode: a branch tests sig[0] & ~mask of the received encoded message", found, finding=f_)
     res.floor("C11.R5", 3)
 
 
